@@ -128,6 +128,9 @@ export function genTy(rng, d, sc) {
         vs[0][1] = [vs[0][1][0], ["sub", A("false"), [A("lit"), [A("s"), "x"]]], ...vs[0][1].slice(1).filter((m) => m[0] !== "sub")];
         vs.splice(1, 0, twin);
       }
+      // the tag optional in one variant (`{ kind?: "a"; … } | { kind: "b"; … }`): a value of that variant may leave the tag out, so the
+      // property does not discriminate
+      if (rng.chance(1, 5)) { const v = rng.pick(vs); const i = v[1].findIndex((m) => m[0] === key); if (i >= 0) v[1][i] = [key, A("true"), v[1][i][2]]; }
       return [A("union"), ...vs];
     }
     case 8: return [A("inter"), ...Array.from({ length: 2 }, () => (sc.objNames.length && rng.chance(1, 2) ? [A("ref"), rng.pick(sc.objNames)] : genObj(rng, d - 1, sc, false)))];
@@ -358,7 +361,7 @@ function mapTy(t, f) { // bottom-up map over type nodes
     case "array": case "arr2": case "paren": case "readonly": r = [t[0], mapTy(t[1], f)]; break;
     case "tuple": r = [t[0], t[1].map((x) => mapTy(x, f)), isAtom(t[2], "none") ? t[2] : mapTy(t[2], f)]; break;
     case "obj": r = [t[0], t[1].map(([k, o, ty]) => [k, o, mapTy(ty, f)]), isAtom(t[2], "none") ? t[2] : [mapTy(t[2][0], f), mapTy(t[2][1], f)]]; break;
-    case "union": case "inter": r = [t[0], ...t.slice(1).map((x) => mapTy(x, f))]; break;
+    case "union": case "inter": case "cond": case "idx": case "keyof": r = [t[0], ...t.slice(1).map((x) => mapTy(x, f))]; break;
     case "ref": case "bi": r = [t[0], t[1], ...t.slice(2).map((x) => mapTy(x, f))]; break;
     default: r = t;
   }
@@ -495,6 +498,27 @@ export function genRewrite(rng, params) {
     const vals = [member, [...member, true], [...member, "x"], member.slice(0, -1), "yes", "no", true, null, 1, "a", [], [true], { 0: "a", 1: 1 }];
     return [A("rewrite"), A(String(counter++)), p1, [["entry.ts", tsOfProg(p1)]], vals.map(encVal), q1, [["entry.ts", tsOfProg(q1)]], [A("inline-alias")]];
   }
+  if (rng.chance(1, 10)) {
+    // a Map / Set that reaches the semantic engine BY NAME (Exclude, a conditional type) against the same container written
+    // in place; key and value types differ, so a converter that mixes them up behind the name shows
+    const leafs = [A("string"), A("number"), A("boolean")];
+    const k = rng.pick(leafs), v = rng.pick(leafs.filter((t) => t !== k));
+    const isMap = rng.chance(2, 3);
+    const body = isMap ? [A("bi"), "Map", k, v] : [A("bi"), "Set", k];
+    const generic = rng.chance(1, 3);
+    const decl = generic ? [A("alias"), "Index", ["P0", "P1"], isMap ? [A("bi"), "Map", [A("ref"), "P0"], [A("ref"), "P1"]] : [A("bi"), "Set", [A("ref"), "P0"]]] : [A("alias"), "Index", [], body];
+    const use = generic ? [A("ref"), "Index", k, v] : [A("ref"), "Index"];
+    const op = rng.below(4);
+    const yes = [A("lit"), [A("s"), "yes"]], no = [A("lit"), [A("s"), "no"]];
+    const mk = (t) => op === 0 ? [A("bi"), "Exclude", [A("union"), t, A("null")], A("null")] : op === 1 ? [A("cond"), t, body, yes, no]
+      : op === 2 ? [A("bi"), "Exclude", [A("union"), [A("obj"), [["m", A("false"), t]], A("none")], A("string")], A("string")] : [A("cond"), body, t, yes, no];
+    const ds = [...p[1].filter((d) => d[1] !== "Index"), decl];
+    const p1 = [p[0], ds, [["EX", mk(use)]]], q1 = [p[0], ds, [["EX", mk(body)]]];
+    const mA = (t) => (t.s === "string" ? "a" : t.s === "number" ? 1 : true);
+    const good = isMap ? new Map([[mA(k), mA(v)]]) : new Set([mA(k)]), bad = isMap ? new Map([[mA(v), mA(k)]]) : new Set([mA(v)]);
+    const vals = [good, bad, isMap ? new Map() : new Set(), { m: good }, { m: bad }, "yes", "no", null, 1, "a", [], isMap ? new Set([mA(k)]) : new Map([[mA(k), mA(k)]])];
+    return [A("rewrite"), A(String(counter++)), p1, [["entry.ts", tsOfProg(p1)]], vals.map(encVal), q1, [["entry.ts", tsOfProg(q1)]], [A("inline-alias")]];
+  }
   // twins that differ only in the optionality of an index signature's value (`Record<K, V>` next to `Partial<Record<K, V>>`):
   // validators the printer hoists and shares must not be shared between the two
   if (rng.chance(1, 10)) {
@@ -540,7 +564,7 @@ function textMutate(rng, src) {
   const i = rng.below(src.length + 1);
   switch (rng.below(6)) {
     case 0: return src.slice(0, i) + src.slice(i + 1 + rng.below(3));
-    case 1: return src.slice(0, i) + rng.pick(["{", "}", "<", ">", "(", ")", "[", "|", "&", ";", "\"", "`", "=", "?", ":", "é", "\n", "/*", "${"]) + src.slice(i);
+    case 1: return src.slice(0, i) + rng.pick(["{", "}", "<", ">", "(", ")", "[", "|", "&", ";", "\"", "`", "=", "?", ":", "é", "\t", "全", "😀", "\n", "/*", "${"]) + src.slice(i);
     case 2: { const m = [...src.matchAll(/\b(string|number|boolean|null|any)\b/g)]; if (!m.length) return src; const k = rng.pick(m); return src.slice(0, k.index) + rng.pick(UNSUPPORTED_SNIPPETS) + src.slice(k.index + k[0].length); }
     case 3: return src.replace("parse.buildParsers", rng.pick(["parse.buildParsers", "buildParsers", "x.y.buildParsers", "parse.buildParsers<{}>();\nparse.buildParsers"]));
     case 4: return rng.pick(["export default 1;\nexport default 2;\n", "enum E { A, B = \"x\" }\n", "declare const v: unique symbol;\n", "export * from \"./entry\";\n", "import X from \"./entry\";\n", "type Self = Self | string;\n", "interface I extends I {}\n", "const va = vb;\nconst vb = va;\ntype Vc = typeof va;\n", "const vs = { k: vs };\ntype Vs = typeof vs;\n"]) + src;
@@ -685,6 +709,12 @@ export function genTotal(rng, params) {
   if (r < 6) files = [["entry.ts", tsOfProg(p)]];
   else if (r < 8) { tied = false; let src = tsOfProg(p); for (let i = 1 + rng.below(3); i > 0; i--) src = textMutate(rng, src); files = [["entry.ts", src]]; }
   else { tied = false; files = splitFiles(rng, p) || [["entry.ts", tsOfProg(p)]]; if (rng.chance(1, 3)) files = files.map(([n, s]) => [n, rng.chance(1, 2) ? textMutate(rng, s) : s]); }
+  // tab-indented sources, full-width characters and emoji in front of the declarations: a column is a count of characters of
+  // the line, whatever their display width
+  if (rng.chance(1, 4)) {
+    const pre = rng.pick(["\t", "\t\t", "/* 全角 */ ", "/* 😀 */ ", "\t/* 全 */\t"]);
+    files = files.map(([n, s]) => [n, s.split("\n").map((l) => (/^(type|interface|export|import|parse\.|const|namespace|function) /.test(l) || l.startsWith("parse.") ? pre + l : l)).join("\n")]);
+  }
   return [A("total"), A(String(counter++)), tied ? p : A("none"), files, vals.map(encVal)];
 }
 
@@ -696,6 +726,12 @@ export function gen(rng, params, mode) {
     let p = genProg(rng);
     for (let i = 0; i < 3 && p[1].length < 2; i++) p = genProg(rng);
     if (p[1].length) p = [p[0], p[1], [...p[2], ["EX", [A("obj"), p[1].map((d, i) => ["d" + i, A("false"), [A("ref"), d[1], ...d[2].map(() => A("string"))]]), A("none")]]]];
+    // a conditional type over a NAMED type: an edit of that declaration flips the answer while the spelling of the operand stays
+    if (rng.chance(1, 4)) {
+      const ng = p[1].filter((d) => d[2].length === 0);
+      if (ng.length) { const d = rng.pick(ng); const L = (v) => [A("lit"), [A("s"), v]];
+        p = [p[0], p[1], [...p[2], ["EC", [A("cond"), [A("ref"), d[1]], A(rng.pick(["string", "number", "boolean"])), L("yes"), L("no")]]]]; }
+    }
     const [files, ops] = genWatch(rng, p);
     return [A("watch"), A(String(counter++)), files, ops];
   }
@@ -948,6 +984,8 @@ export function makeRunner(rt_, mode, build) {
           const nl = f[1].split("\n").length;
           if (!(lo >= 1 && lo <= hi && hi <= len + 1) && !(lo === 0 || hi === 0)) fail.push(A("c04.diag-range"));
           if (!(l0 >= 1 && l0 <= nl && l1 >= l0 && l1 <= nl && (l1 > l0 || c1 >= c0))) fail.push(A("c04.diag-linecol"));
+          // … and the columns within their lines (a column counts UTF-16 units, which is what `.length` counts)
+          else { const ls = f[1].split("\n"); if (c0 > ls[l0 - 1].length || c1 > ls[l1 - 1].length) fail.push(A("c04.diag-col")); }
         }
         return [[A("outcome"), A("diags")], fail.length ? [A("oracle"), A("fail"), ...fail] : [A("oracle"), A("ok")]];
       }
